@@ -183,6 +183,13 @@ def build(sh, seed=0, require_dirs=False):
         if 'deep_ebuild' in odd:
             files[f'{d}/sub/q.ebuild'] = _c('deep q', seed)
             files[f'{d}/files/z.ebuild'] = _c('deep z', seed)
+        if 'dotdirs' in odd:
+            # ordinary (non-dot) files inside dot-directories: never covered by the reference implementation
+            files['.git/config'] = _c('dot top', seed)
+            files['eclass/.cache/readme.txt'] = _c('dot eclass', seed)
+            files[f'{d}/.idea/workspace.xml'] = _c('dot pkg', seed)
+            files[f'{d}/files/.svn/entries'] = _c('dot files', seed)
+            files['metadata/glsa/.git/x'] = _c('dot glsa', seed)
         if 'hidden' in odd:
             files['.hid/metadata.xml'] = _c('hidden top', seed)
             files[f'{c0}/.hid/metadata.xml'] = _c('hidden cat', seed)
@@ -294,7 +301,7 @@ def shapes(tier):
 
 
 def c20_eligible(sh):
-    return not (set(sh['repo']) & set(IGNORED_TOP)) and not sh.get('odd')
+    return not (set(sh['repo']) & set(IGNORED_TOP)) and not (set(sh.get('odd') or ()) - {'dotdirs'})
 
 
 C20_OPT = ('md5cache', 'layout', 'tschk', 'nd', 'nd2', 'catmeta', 'profiles')
@@ -313,6 +320,9 @@ def shapes_c20(tier):
     # nd2 puts step (3) of C20 outside the statement, so it only varies in the 'opt' family (and one 'all' shape)
     full = C20_BASE + tuple(x for x in C20_OPT if x != 'nd2')
     out = [('all', shape([[PKG, PKG_FULL], [PKG_FULL]], C20_BASE + C20_OPT))]
+    # non-dot files inside dot-directories (package, files/, eclass, metadata/glsa, top level)
+    out.append(('dot', shape([[PKG, PKG_FULL]], full, ('dotdirs',))))
+    out.append(('dot', shape([[('e1', 'fx')]], base, ('dotdirs',))))
     if tier == 'quick':
         subs = [s for s in powerset(PKG) if 'e2' not in s]         # 32 subsets (e2 behaves like e1)
         for (nc, npk), repo in itertools.product([(1, 1), (2, 2)], [base, full]):
